@@ -105,6 +105,33 @@ def split_operand(rest):
     die('cannot split operand', rest)
 
 
+def literal_struct(ty):
+    """'{ i64, i64 }' -> ['i64', 'i64'] for a flat literal structure of scalar members (what ABI coercion of a small
+    struct produces), else None"""
+    t = ty.strip()
+    if not (t.startswith('{') and t.endswith('}')) or '{' in t[1:-1] or '[' in t or '<' in t:
+        return None
+    elems = [e.strip() for e in t[1:-1].split(',')]
+    if not elems or any(kind_of(e)[0] == 'other' for e in elems):
+        return None
+    return elems
+
+
+def swap_value(ind, ety, v, out):
+    """emit code that byte-reverses scalar v of type ety; -> name of the result"""
+    k, bits = kind_of(ety)
+    if k == 'byte':
+        return v
+    it = 'i%d' % bits
+    if k == 'int':
+        s = tmp(); out.append('%s%s = call %s @llvm.bswap.%s(%s %s)' % (ind, s, it, it, it, v)); return s
+    a, s, r = tmp(), tmp(), tmp()
+    out.append('%s%s = %s %s %s to %s' % (ind, a, 'bitcast' if k == 'fp' else 'ptrtoint', ety, v, it))
+    out.append('%s%s = call %s @llvm.bswap.%s(%s %s)' % (ind, s, it, it, it, a))
+    out.append('%s%s = %s %s %s to %s' % (ind, r, 'bitcast' if k == 'fp' else 'inttoptr', it, s, ety))
+    return r
+
+
 def rewrite_load(line, out):
     m = re.match(r'^(\s*)(%[\w.]+) = load (volatile )?(.*)$', line)
     ind, res, vol, rest = m.group(1), m.group(2), m.group(3) or '', m.group(4)
@@ -113,7 +140,20 @@ def rewrite_load(line, out):
     if k == 'byte':
         out.append(line); return
     if k == 'other':
-        die('load of an aggregate/vector/unsupported type', line)
+        elems = literal_struct(ty)
+        if elems is None:
+            die('load of an aggregate/vector/unsupported type', line)
+        # member-wise: the aggregate is loaded as it lies in memory, then every multi-byte member is byte-reversed
+        raw = tmp()
+        out.append('%s%s = load %s%s%s' % (ind, raw, vol, ty, re.sub(r',\s*![\w.]+ ![\w.]+', '', rest)))
+        cur = raw
+        for i, ety in enumerate(elems):
+            e = tmp(); out.append('%s%s = extractvalue %s %s, %d' % (ind, e, ty, cur, i))
+            sv = swap_value(ind, ety, e, out)
+            nxt = res if i == len(elems) - 1 else tmp()
+            out.append('%s%s = insertvalue %s %s, %s %s, %d' % (ind, nxt, ty, cur, ety, sv, i))
+            cur = nxt
+        return
     # rest: ', <ty>* <ptr>, align N[, metadata]'
     assert rest.lstrip().startswith(','), line
     pty, rest2 = split_type(rest.lstrip()[1:])
@@ -144,7 +184,19 @@ def rewrite_store(line, out):
     if k == 'byte':
         out.append(line); return
     if k == 'other':
-        die('store of an aggregate/vector/unsupported type', line)
+        elems = literal_struct(ty)
+        if elems is None:
+            die('store of an aggregate/vector/unsupported type', line)
+        val, rest = split_operand(rest)
+        cur = val
+        for i, ety in enumerate(elems):
+            e = tmp(); out.append('%s%s = extractvalue %s %s, %d' % (ind, e, ty, cur, i))
+            sv = swap_value(ind, ety, e, out)
+            nxt = tmp()
+            out.append('%s%s = insertvalue %s %s, %s %s, %d' % (ind, nxt, ty, cur, ety, sv, i))
+            cur = nxt
+        out.append('%sstore %s%s %s,%s' % (ind, vol, ty, cur, re.sub(r',\s*![\w.]+ ![\w.]+', '', rest)))
+        return
     val, rest = split_operand(rest)
     pty, rest2 = split_type(rest)
     ptr, _, tail = rest2.strip().partition(',')
